@@ -377,7 +377,7 @@ func c17Init() {
 func c17Run(c *Ctx) {
 	mustBeDefault(c)
 	c17Init()
-	c.S.Rule = "layer 1+2 (purity, E-input): every read-only operation (35: all ValuesFor*/PathsFor*/Leaf*/Exists/Elements/Attributes/Root queries, all XML/JSON/gob encoders and Writer forms, Copy, StringIndent, NewMap, AnyXml, MapSeq encoders) x every Map template with <= N nodes over keys {r,k,-x,#text} plus MapSeqs decoded from XML documents, with the whole receiver frozen: no monitored store into any container reachable from it, canonical dump unchanged, the package-level variables written are logged (reported as a counter; a synchronised cache is not a violation by itself); ascending and descending map order. layer 3 (interleavings, E-choice): a cooperative scheduler runs 2 threads (thorough: also 3) with 1-2 operations each from a menu of 18 (decode XML with cast, from plain readers incl. the raw form, decode sequence-XML, decode JSON and from a reader, Xml, XmlIndent, Json, Copy, ValuesForPath with wildcard, ValuesForKey, PathsForKey, LeafNodes, Gob round trip, MapSeq.Xml on shared read-only Maps, private round trip); scheduling points at every function entry, loop back-edge, map-iteration step and package-variable access of the instrumented mxj; ALL schedules with <= P preemptions; oracle per schedule: every thread's result equals its sequential result, the shared Maps are unchanged (dump + store monitor). layer 4 (supplementary): the same bodies free-running on the uninstrumented build under the Go race detector. non-trivial = schedules with at least one preemption."
+	c.S.Rule = "layer 1+2 (purity, E-input): every read-only operation (35: all ValuesFor*/PathsFor*/Leaf*/Exists/Elements/Attributes/Root queries, all XML/JSON/gob encoders and Writer forms, Copy, StringIndent, NewMap, AnyXml, MapSeq encoders) x every Map template with <= N nodes over keys {r,k,-x,#text} plus MapSeqs decoded from XML documents, with the whole receiver frozen: no monitored store into any container reachable from it, canonical dump unchanged, the package-level variables written are logged (reported as a counter; a synchronised cache is not a violation by itself); ascending and descending map order. layer 3 (interleavings, E-choice): a cooperative scheduler runs 2 threads (thorough: also 3) with 1-2 operations each from a menu of 18 (decode XML with cast, from plain readers incl. the raw form, decode sequence-XML, decode JSON and from a reader, Xml, XmlIndent, Json, Copy, ValuesForPath with wildcard, ValuesForKey, PathsForKey, LeafNodes, Gob round trip, MapSeq.Xml on shared read-only Maps, private round trip); scheduling points at every function entry, loop back-edge, map-iteration step and package-variable access of the instrumented mxj; ALL schedules with <= P preemptions; oracle per schedule: every thread's result equals its sequential result, the shared Maps are unchanged (dump + store monitor). layer 4 (supplementary): the same bodies free-running on the uninstrumented build under the Go race detector - first from a cold start (the first calls of the process run concurrently), then in rounds that also run 18 operations whose argument texts (tags, keys, paths, sub-key specs, key pairs) are new to the process, one text shared by all 8 goroutines and one private to each. non-trivial = schedules with at least one preemption."
 	c.S.Assumptions = []string{"sequentially consistent interleavings at hooked points; conflicts through unhooked writes inside the standard library are left to the race-detector pass", "package options are not changed concurrently (as the property states)"}
 	// ---- layers 1 and 2
 	n := 5
@@ -536,6 +536,60 @@ func lastLine(s string) string {
 }
 
 // racePass: the layer-3 bodies, free-running on OS threads (called in the -race plain build).
+// c17Fresh: operations whose string arguments (tags, keys, paths, sub-key specs, key pairs) have never been
+// seen by the process before: whatever the library memoises by argument text is filled concurrently.
+func c17Fresh(tok string) []func() string {
+	r := func(v interface{}, err error) string { return fmt.Sprintf("%s|%v", dump(v), err != nil) }
+	srt := func(v []interface{}, err error) string {
+		return fmt.Sprintf("%v|%v", sortedCopy(dumpSeq(v)), err != nil)
+	}
+	S := func() mxj.Map { return mxj.Map(c17Shared) }
+	priv := func() mxj.Map {
+		return mxj.Map{tok: map[string]interface{}{"b": map[string]interface{}{"c": "v"}, "l": []interface{}{map[string]interface{}{"id": tok}, map[string]interface{}{"id": "o"}}}}
+	}
+	return []func() string{
+		func() string { return srt(S().ValuesForPath("*.k", "!-id:"+tok)) },
+		func() string { return srt(S().ValuesForKey("k", "z:"+tok)) },
+		func() string { return srt(S().ValuesForKey(tok)) },
+		func() string { return fmt.Sprint(S().PathsForKey(tok)) },
+		func() string { return srt(S().ValuesForPath(tok + ".k")) },
+		func() string { return srt(priv().ValuesForPath(tok+".l", "id:"+tok)) },
+		func() string { return srt(priv().ValuesForPath(tok + ".l[1].id")) },
+		func() string {
+			m, e := mxj.NewMapXml([]byte("<"+tok+" A"+tok+"=\"1\"><B"+tok+">true</B"+tok+"><c>"+tok+"</c></"+tok+">"), true)
+			return r(map[string]interface{}(m), e)
+		},
+		func() string {
+			m, e := mxj.NewMapXmlSeq([]byte("<n:" + tok + "><!--" + tok + "--><q:" + tok + ">v</q:" + tok + "></n:" + tok + ">"))
+			if e != nil {
+				return r(nil, e)
+			}
+			v, e2 := m.Xml()
+			return r(string(v), e2)
+		},
+		func() string { v, e := priv().Xml(); return r(string(v), e) },
+		func() string { v, e := priv().Json(); return r(string(v), e) },
+		func() string { return fmt.Sprint(sortLeafs(priv().LeafNodes())) },
+		func() string { m, e := priv().NewMap(tok + ".b:x." + tok); return r(map[string]interface{}(m), e) },
+		func() string { m, e := priv().NewMap(tok + ":x*"); return r(map[string]interface{}(m), e) },
+		func() string {
+			p := priv()
+			e := p.SetValueForPath("n", tok+".b.c")
+			return r(map[string]interface{}(p), e)
+		},
+		func() string {
+			p := priv()
+			n, e := p.UpdateValuesForPath("id:"+tok+"2", tok+".l.id", "id:"+tok)
+			return r(map[string]interface{}(p), e) + fmt.Sprint(n)
+		},
+		func() string { p := priv(); e := p.RenameKey(tok+".b", tok); return r(map[string]interface{}(p), e) },
+		func() string {
+			m, e := mxj.NewMapJson([]byte(`{"` + tok + `":[1,{"` + tok + `k":"<"}]}`))
+			return r(map[string]interface{}(m), e)
+		},
+	}
+}
+
 func racePass() {
 	c17Init()
 	menu := c17Menu()
@@ -544,31 +598,79 @@ func racePass() {
 		names = append(names, k)
 	}
 	names = sortedCopy(names)
+	var mu sync.Mutex
+	bad := ""
+	note := func(s string) {
+		mu.Lock()
+		if bad == "" {
+			bad = s
+		}
+		mu.Unlock()
+	}
+	// phase A (cold): the very first calls of the process run concurrently - whatever the library
+	// initialises lazily is initialised under contention; results are compared with a sequential pass afterwards
+	const G = 8
+	cold := make([][]string, G)
+	var wg sync.WaitGroup
+	for g := 0; g < G; g++ {
+		wg.Add(1)
+		go func(g int) {
+			defer wg.Done()
+			cold[g] = make([]string, len(names))
+			for i := 0; i < len(names); i++ {
+				j := (i + g*5) % len(names)
+				cold[g][j] = menu[names[j]]()
+			}
+		}(g)
+	}
+	wg.Wait()
 	seq := map[string]string{}
 	for _, n := range names {
 		seq[n] = menu[n]()
 	}
+	for g := 0; g < G; g++ {
+		for j, n := range names {
+			if cold[g][j] != seq[n] {
+				note(fmt.Sprintf("cold start, %s: %s != %s", n, cold[g][j], seq[n]))
+			}
+		}
+	}
+	// phase B: repeated rounds; every round also runs operations whose argument texts are new to the process,
+	// one token shared by all goroutines of the round and one private to each
 	deadline := time.Now().Add(4 * time.Second)
 	iters := 0
-	var mu sync.Mutex
-	bad := ""
-	for time.Now().Before(deadline) {
-		var wg sync.WaitGroup
-		for g := 0; g < 8; g++ {
+	for time.Now().Before(deadline) || iters < 20 {
+		shared := fmt.Sprintf("s%d", iters)
+		outs := make([][]string, G)
+		for g := 0; g < G; g++ {
 			wg.Add(1)
 			go func(g int) {
 				defer wg.Done()
 				for i := 0; i < len(names); i++ {
 					n := names[(i+g*5)%len(names)]
 					if got := menu[n](); got != seq[n] {
-						mu.Lock()
-						bad = fmt.Sprintf("%s: %s != %s", n, got, seq[n])
-						mu.Unlock()
+						note(fmt.Sprintf("%s: %s != %s", n, got, seq[n]))
+					}
+				}
+				for _, tok := range []string{shared, fmt.Sprintf("p%dg%d", iters, g)} {
+					for _, f := range c17Fresh(tok) {
+						outs[g] = append(outs[g], f())
 					}
 				}
 			}(g)
 		}
 		wg.Wait()
+		for g := 0; g < G; g++ {
+			k := 0
+			for _, tok := range []string{shared, fmt.Sprintf("p%dg%d", iters, g)} {
+				for fi, f := range c17Fresh(tok) {
+					if want := f(); outs[g][k] != want {
+						note(fmt.Sprintf("fresh-argument operation %d with token %s: %s != %s", fi, tok, outs[g][k], want))
+					}
+					k++
+				}
+			}
+		}
 		iters++
 	}
 	if bad != "" {
